@@ -1009,7 +1009,7 @@ class ProjRepair(PContract):
     clause of Job.init and is bounded-only."""
     target = f"{PRJ}.Project.repair"
     properties = ("C09", "C11")
-    shard_bits = 2
+    shard_bits = 4
     callees = {f"{PRJ}.Project._read_cache": stub_read_cache,
                f"{PRJ}.Project.open_job": stub_open_job_by_sp, f"{JOB}.Job.init": stub_job_init}
 
